@@ -62,7 +62,7 @@ def brief(c):
 
 def run(pid, tier, seed, replay):
     ck = Check(pid, tier, seed, level="proof")
-    n = 2500 if tier == "quick" else 60000
+    n = 2500 if tier == "quick" else 40000
     ck.proof_step(extra_targets=["Model/SimpRules.vo"])
     ok, out, dt = vlib.cargo_build("h_core", bin="c04")
     ck.log("cargo build: ok=%s (%.0fs)" % (ok, dt))
@@ -89,8 +89,8 @@ def run(pid, tier, seed, replay):
 
     # ---- correspondence on the RefSQL fragment
     corr = [c for c in cases if c.get("ref")]
-    if tier == "quick":
-        corr = corr[:1600]
+    # the pairs the simplifier changed first; unchanged pairs only tie the reference evaluator to the engine
+    corr = ([c for c in corr if c.get("changed")] + [c for c in corr if not c.get("changed")])[:700 if tier == "quick" else 8000]
     terms = []
     kept = []
     for c in corr:
@@ -99,7 +99,9 @@ def run(pid, tier, seed, replay):
             kept.append(c)
         except (ValueError, KeyError) as e:
             ck.problem("translator", "cannot render case %s: %s" % (c["id"], e))
-    bad, log, dt = vlib.coq_eval_cases(PRE, "c04_case", "c04_check", terms, shard=60, tag="c04", timeout=1500)
+    # few large shards: on a loaded machine many parallel coqc processes are slower than a handful
+    shard = max(150, (len(terms) + 3) // 4)
+    bad, log, dt = vlib.coq_eval_cases(PRE, "c04_case", "c04_check", terms, shard=shard, tag="c04", timeout=2400)
     if log:
         ck.problem("tie", "coq evaluation failed: " + log[-2000:])
     bad = [b for b in bad if isinstance(b, int)]
@@ -109,8 +111,8 @@ def run(pid, tier, seed, replay):
         # classify: (a) only a run-time error of e' where the reference's AND/OR/CASE expansion is stricter than the engine
         #           (b) the reference evaluates e differently from the engine (c) the reference separates e and e'
         sub = [terms[i] for i in bad]
-        bad_len, log2, _ = vlib.coq_eval_cases(PRE, "c04_case", "c04_check_lenient", sub, shard=60, tag="c04l", timeout=1500)
-        bad_eq, log3, _ = vlib.coq_eval_cases(PRE, "c04_case", "c04_equiv_only", sub, shard=60, tag="c04e", timeout=1500)
+        bad_len, log2, _ = vlib.coq_eval_cases(PRE, "c04_case", "c04_check_lenient", sub, shard=150, tag="c04l", timeout=1500)
+        bad_eq, log3, _ = vlib.coq_eval_cases(PRE, "c04_case", "c04_equiv_only", sub, shard=150, tag="c04e", timeout=1500)
         if log2 or log3:
             ck.problem("tie", "coq evaluation failed: " + (log2 + log3)[-2000:])
         bad_len = {b for b in bad_len if isinstance(b, int)}
